@@ -151,6 +151,47 @@ func (s *Slice) visit(v ssa.Value, depth int) {
 		s.visitGlobalStores(x, depth)
 	case *ssa.Function, *ssa.Builtin:
 	case *ssa.Parameter:
+		if pf := x.Parent(); pf.Parent() != nil {
+			// parameter of a function literal: its values come from whoever the
+			// literal is handed to (callbacks, range-over-func iterators)
+			handed := false
+			for _, b := range pf.Parent().Blocks {
+				for _, in := range b.Instrs {
+					var clo ssa.Value
+					if mc, ok := in.(*ssa.MakeClosure); ok && mc.Fn == ssa.Value(pf) {
+						clo = mc
+					}
+					if clo == nil {
+						continue
+					}
+					for _, r := range *clo.Referrers() {
+						ci, ok := r.(ssa.CallInstruction)
+						if !ok {
+							continue
+						}
+						isArg := false
+						for _, a := range ci.Common().Args {
+							if a == clo {
+								isArg = true
+							}
+						}
+						if !isArg {
+							continue
+						}
+						handed = true
+						s.visit(ci.Common().Value, depth)
+						for _, a := range ci.Common().Args {
+							if a != clo {
+								s.visit(a, depth)
+							}
+						}
+					}
+				}
+			}
+			if handed {
+				return
+			}
+		}
 		if s.callers && depth < s.maxDepth {
 			fn := x.Parent()
 			idx := -1
@@ -319,7 +360,29 @@ func (s *Slice) visitStoresTo(addr ssa.Value, depth int) {
 				s.visitStoresTo(st, depth)
 			}
 		case *ssa.Slice:
-			// varargs arrays: "slice t[:]" of an alloc'd array
+			// "buf[:0]" handed to a callee that fills it (hash.Sum, append-style APIs)
+			if st.X != addr || st.Referrers() == nil {
+				continue
+			}
+			for _, q := range *st.Referrers() {
+				ci, ok := q.(ssa.CallInstruction)
+				if !ok {
+					continue
+				}
+				if n := calleeName(ci); n != "" {
+					if v, ok := ci.(ssa.Value); ok {
+						s.Calls[n] = append(s.Calls[n], v)
+					}
+				}
+				if ci.Common().IsInvoke() {
+					s.visit(ci.Common().Value, depth)
+				}
+				for _, a := range ci.Common().Args {
+					if a != ssa.Value(st) {
+						s.visit(a, depth)
+					}
+				}
+			}
 		case ssa.CallInstruction:
 			// the address is handed to a callee (pointer receiver or argument):
 			// whatever else the call receives may end up behind the pointer
